@@ -239,6 +239,10 @@ class M:
                 return "SClearNet"
         if isinstance(st, ast.Expr) and ast.unparse(st.value) in getattr(self, "calls", {}):
             return f"(SCall {self.calls[ast.unparse(st.value)]})"
+        # self.<translated one-parameter method>(<v>)
+        if isinstance(st, ast.Expr) and isinstance(st.value, ast.Call) and len(st.value.args) == 1 and not st.value.keywords \
+                and ast.unparse(st.value.func) in getattr(self, "arg_calls", {}):
+            return f"(SCallArg {self.arg_calls[ast.unparse(st.value.func)]} {self.v(st.value.args[0])})"
         if isinstance(st, ast.Delete) and len(st.targets) == 1:
             s = self.sub(st.targets[0], TABLES)
             if s:
